@@ -12,12 +12,14 @@ CONSTANT Family            \* which universe to enumerate (see Universe below)
 (* pools: the coordinates files may contain *)
 \* 1: 2012-01-01 00Z (Sun)  2: 2012-01-01 06Z  3: 2012-01-02 00Z (Mon)  4: 2012-02-01 00Z  5: 2011-12-31 18Z (Sat)
 \* 6: 2012-02-29 12Z (leap day)  7: 2012-03-01 00Z  8: 2011-03-01 00Z (non-leap year)  9: 2012-12-31 23Z
-TimePool == <<1325376000, 1325397600, 1325462400, 1328054400, 1325354400, 1330516800, 1330560000, 1298937600, 1356994800>>
+\* 10: 2012-01-01 01Z  11: 2012-01-01 02Z (runs one hour apart: relatively close as unix times, family C02Close)
+TimePool == <<1325376000, 1325397600, 1325462400, 1328054400, 1325354400, 1330516800, 1330560000, 1298937600, 1356994800,
+              1325379600, 1325383200>>
 LeadPool == <<0, 12, 24, 36, 47, 48>>
-LocPool  == <<1, 2, 3, 4>>
-LatOf(s)  == 40 + 10 * s          \* 50, 60, 70, 80
-LonOf(s)  == IF s = 3 THEN 200 ELSE 10 * s     \* one station in the 0..360 convention
-ElevOf(s) == 100 * (s - 1)
+LocPool  == <<1, 2, 3, 4, 1000001, 1000005>>       \* two seven-digit station ids a few units apart (family C02Close)
+LatOf(s)  == IF s > 100 THEN 41 + (s % 10) ELSE 40 + 10 * s          \* 50, 60, 70, 80
+LonOf(s)  == IF s > 100 THEN 5 + (s % 10) ELSE IF s = 3 THEN 200 ELSE 10 * s     \* one station in the 0..360 convention
+ElevOf(s) == IF s > 100 THEN 50 + (s % 10) ELSE 100 * (s - 1)
 Code(t, l, s) == 100 * IndexIn(TimePool, t) + 10 * IndexIn(LeadPool, l) + IndexIn(LocPool, s)
 
 Positions(ts, ls, ss) == {<<i, j, k>> : i \in DOMAIN ts, j \in DOMAIN ls, k \in DOMAIN ss}
@@ -132,6 +134,12 @@ UC02Sel(u) == {[inp |-> <<FullIn(x, La, Sa), FullIn(y, Lb, Sb)>>, clim |-> NoCli
                           WithOpt(NoOptions, "t", {TimePool[3], TimePool[1]})}}
 RepOrPlain(P) == RepeatSubs(P) \cup {<<P[1], P[2]>>, <<P[3], P[2], P[1]>>}
 UC02Repeat(u) == {g \in UC02Dim(RepOrPlain) : TRUE}
+\* coordinates that are close in RELATIVE terms (initialisation times one hour apart, seven-digit station ids): each is its own case
+TC3 == <<TimePool[1], TimePool[10], TimePool[11]>>
+SC3 == <<LocPool[5], LocPool[6], LocPool[2]>>
+UC02Close(u) == {[inp |-> <<FullIn(x, La, y), FullIn(z, Lb, w)>>, clim |-> NoClimGen, opt |-> NoOptions]
+                   : x \in {TC3, <<TC3[3], TC3[1], TC3[2]>>}, z \in {TC3, <<TC3[2], TC3[3], TC3[1]>>},
+                     y \in {SC3, <<SC3[2], SC3[3], SC3[1]>>}, w \in {SC3, <<SC3[3], SC3[2], SC3[1]>>}}
 \* all three dimensions vary together over a reduced menu, three inputs
 Few(P) == {<<P[1], P[2]>>, <<P[2], P[1]>>, <<P[3], P[1], P[2]>>, <<P[2], P[3]>>}
 UC02All(u) == {[inp |-> <<FullIn(a, b, c), FullIn(d, e, f)>>, clim |-> NoClimGen, opt |-> NoOptions]
@@ -181,7 +189,7 @@ C11Times == {ts \in TimeSubsets3 : IndexIn(TimePool, ts[1]) < IndexIn(TimePool, 
 L6 == <<LeadPool[2], LeadPool[5], LeadPool[3], LeadPool[6], LeadPool[1]>>     \* 12, 47, 24, 48, 0
 UC11(u) == {[inp |-> <<[ts |-> ts, ls |-> L6, ss |-> Sa, hasObs |-> TRUE, mo |-> {<<1, 2, 1>>}, mf |-> {<<2, 3, 2>>}, bump |-> 0]>>,
              clim |-> NoClimGen, opt |-> NoOptions] : ts \in C11Times}
-UC11All(u) == {[inp |-> <<[ts |-> TimePool, ls |-> L6, ss |-> Sa, hasObs |-> TRUE, mo |-> {<<1, 2, 1>>}, mf |-> {<<2, 3, 2>>}, bump |-> 0]>>,
+UC11All(u) == {[inp |-> <<[ts |-> SubSeq(TimePool, 1, 9), ls |-> L6, ss |-> Sa, hasObs |-> TRUE, mo |-> {<<1, 2, 1>>}, mf |-> {<<2, 3, 2>>}, bump |-> 0]>>,
              clim |-> NoClimGen, opt |-> NoOptions]}
 
 ---------------------------------------------------------------------------
@@ -204,6 +212,11 @@ UC14Two(u) == {[inp |-> <<In212(TRUE, a, b), In212(h, {}, d)>>,
 \* C18: datasets whose inputs disagree on which cells are missing (the interesting ones for caches that are written in place)
 UC18Quick(u) == {[inp |-> <<In212(TRUE, a, b), In212(TRUE, c, d)>>, clim |-> NoClimGen, opt |-> NoOptions]
                   : a \in {{}, {<<1, 1, 1>>}}, b \in {{}, {<<1, 1, 2>>}}, c \in {{}, {<<2, 1, 1>>}}, d \in {{}, {<<2, 1, 2>>}}}
+\* one location (two times, two lead times): every dimension of every input lines up with the verified dimensions, position by position
+In221(hasObs, mo, mf) == [ts |-> T2, ls |-> <<LeadPool[1], LeadPool[2]>>, ss |-> <<LocPool[1]>>, hasObs |-> hasObs, mo |-> mo, mf |-> mf, bump |-> 0]
+UC18Single(u) == {[inp |-> <<In221(TRUE, a, b), In221(h, {}, d)>>, clim |-> NoClimGen, opt |-> o]
+                    : a \in {{}, {<<1, 1, 1>>}}, b \in {{<<1, 2, 1>>}}, d \in {{}, {<<2, 1, 1>>}}, h \in BOOLEAN,
+                      o \in {NoOptions, WithOpt(NoOptions, "obsrange", <<R(1112), R(1221)>>)}}
 UC18Mix(u) == {[inp |-> <<In212(TRUE, a, b), In212(h, {}, d)>>, clim |-> cl, opt |-> o]
                   : a \in {{}, {<<1, 1, 1>>}}, b \in {{<<1, 1, 2>>}}, d \in {{}, {<<2, 1, 2>>}}, h \in BOOLEAN,
                     cl \in {NoClimGen, [on |-> TRUE, ts |-> T2, ls |-> L1, ss |-> S2, hasObs |-> FALSE, mo |-> {}, mf |-> {<<2, 1, 1>>},
@@ -226,6 +239,10 @@ C12Leads == <<LeadPool[1], LeadPool[3], LeadPool[5]>>
 In12(mo, mf) == [ts |-> C12Times, ls |-> C12Leads, ss |-> <<LocPool[2], LocPool[1], LocPool[4]>>, hasObs |-> TRUE, mo |-> mo, mf |-> mf, bump |-> 0]
 UC12(u) == {[inp |-> <<In222(a, {}), In222({}, d)>>, clim |-> NoClimGen, opt |-> NoOptions] : a \in {{}, {p \in P222 : p[1] = 1}}, d \in {{}, {<<1, 2, 1>>}}}
       \cup {[inp |-> <<In12(a, {}), In12({}, d)>>, clim |-> NoClimGen, opt |-> NoOptions] : a \in {{}, {<<2, 1, 1>>, <<2, 2, 1>>, <<2, 3, 1>>}}, d \in {{<<5, 1, 2>>}}}
+\* the same tables with a climatology (-c): the legend and the columns are those of the scored inputs
+UC12Clim(u) == {[inp |-> <<In222({}, {}), In222({}, {<<1, 2, 1>>})>>,
+                 clim |-> [on |-> TRUE, ts |-> Tb, ls |-> La, ss |-> Sa, hasObs |-> FALSE, mo |-> {}, mf |-> {<<2, 2, 2>>}, mode |-> "small", type |-> "subtract"],
+                 opt |-> NoOptions]}
 UC04Quick(u) == {x \in UC04(0) : x.inp[2].mo = {} \/ x.inp[1].mf = {}}
 \* climatology together with an input that borrows its observations
 UC01ClimNoObs(u) == {[inp |-> <<In112(TRUE, a, b), In112(FALSE, {}, d)>>, clim |-> ClimGen(f, m[1], m[2]), opt |-> NoOptions]
@@ -256,13 +273,16 @@ Universe(u) ==
     [] Family = "C18One"    -> {[inp |-> <<In212(TRUE, {<<1, 1, 1>>}, {<<1, 1, 2>>}), In212(TRUE, {<<2, 1, 1>>}, {})>>, clim |-> NoClimGen, opt |-> NoOptions]}
     [] Family = "C18Full"   -> UC01Full(0)
     [] Family = "C18Mix"    -> UC18Mix(0)
+    [] Family = "C18Single" -> UC18Single(0)
     [] Family = "C04"       -> UC04(0)
     [] Family = "C04Quick"  -> UC04Quick(0)
     [] Family = "C04Clim"   -> UC04Clim(0)
     [] Family = "C12"       -> UC12(0)
+    [] Family = "C12Report" -> UC12(0) \cup UC12Clim(0)
     [] Family = "C02Order"  -> UC02Order(0)
     [] Family = "C02Sel"    -> UC02Sel(0)
     [] Family = "C02Repeat" -> UC02Repeat(0)
+    [] Family = "C02Close"  -> UC02Close(0)
     [] Family = "C02All"    -> UC02All(0)
     [] Family = "C02Three"  -> UC02Three(0)
     [] Family = "C03K1"     -> UC03(1)
